@@ -6,6 +6,9 @@ VERIF = os.path.dirname(os.path.dirname(os.path.abspath(__file__)))
 REPO = os.environ.get("VERIF_REPO", "/repo")
 COQ = os.path.join(VERIF, "coq")
 WORKROOT = os.path.join(VERIF, ".work")
+# evaluation of scratch worktrees (seeded / benign changes): VERIF_REPO points at the worktree and VERIF_SCRATCH_OUT at a
+# directory that receives evidence/ and replays/ instead of /verif's own (which describe /repo only)
+OUTROOT = os.environ.get("VERIF_SCRATCH_OUT", VERIF)
 WORK = os.path.join(WORKROOT, "run-%d" % os.getpid())
 GOENV = dict(os.environ, GOFLAGS="-mod=mod", GOPROXY="off", GOSUMDB="off", GOTOOLCHAIN="local",
              CGO_ENABLED=os.environ.get("CGO_ENABLED", "1"))
@@ -380,10 +383,10 @@ class Run:
         rc = 0
         if self.violations:
             rc = 1
-            os.makedirs(os.path.join(VERIF, "replays"), exist_ok=True)
+            os.makedirs(os.path.join(OUTROOT, "replays"), exist_ok=True)
             seen = 0
             for i, v in enumerate(self.violations[:5]):
-                path = os.path.join(VERIF, "replays", "%s-%d-%d.json" % (self.pid, self.seed, i))
+                path = os.path.join(OUTROOT, "replays", "%s-%d-%d.json" % (self.pid, self.seed, i))
                 with open(path, "w") as fh:
                     json.dump({"property": self.pid, "seed": self.seed, "tier": self.tier, "what": v["what"],
                                "no_failing_input_found": v["no_input"], "replay": v["replay"]}, fh, indent=1)
@@ -409,7 +412,7 @@ class Run:
         ev = {"property_id": self.pid, "tier": self.tier, "seed": self.seed, "level": level, "coverage": cov,
               "assumptions": self.assumptions, "wall_s": round(wall, 2), "violations": len(self.violations),
               "known_findings_reported": [k["id"] for k in self.known_hits]}
-        os.makedirs(os.path.join(VERIF, "evidence"), exist_ok=True)
-        with open(os.path.join(VERIF, "evidence", "%s.json" % self.pid), "w") as fh:
+        os.makedirs(os.path.join(OUTROOT, "evidence"), exist_ok=True)
+        with open(os.path.join(OUTROOT, "evidence", "%s.json" % self.pid), "w") as fh:
             json.dump(ev, fh, indent=1, sort_keys=True)
         return rc
